@@ -27,6 +27,10 @@ fn run(name: String, n: usize) -> String {
     let mut rec = Recorder::new(); let mut trace = Trace::new();
     match guarded(|| read(&text, &mut rec, Some(&mut trace))) { Ok(Ok(())) => (), other => return fail(&name, n, "read", &format!("{:?}", other)) }
     let h = rec.events;
+    // 1b. the reader feeding the string writer directly: no panic, and a text in normal form is echoed character for character
+    let mut we = Writer::new();
+    match guarded(|| read(&text, &mut we, None).map(|_| we.write())) { Ok(Ok(t)) => { if t != text { return fail(&name, n, "written text of the reader's events differs from the input in normal form", &format!("len {} vs {}", t.len(), text.len())) } }
+        other => return fail(&name, n, "writer panics or the read fails when the reader feeds the writer", &format!("{:?}", other.map(|r| r.map(|t| t.len())))) }
     // 2. builder (no trace) against the reference denotation of the events
     let mut b = Builder::new();
     match guarded(|| read(&text, &mut b, None)) { Ok(Ok(())) => (), other => return fail(&name, n, "read without trace", &format!("{:?}", other)) }
